@@ -1,5 +1,6 @@
 import OpusProofs.SilkSymsDecode
 import OpusProofs.SilkSymsHistory
+import OpusProofs.CeltSymsHeader
 /-
   Property C03 — "decoder output conforms to the RFC 6716 reference decoder", bit-stream half, stage 1:
   the SILK symbol layer.  `Opus.SilkSyms.decodePacket` (OpusModel/SilkSyms.lean) is the frozen normative
@@ -117,5 +118,47 @@ example : (match obsPacket (decodePacket 48000 false false
              { ch0 := { ecPrevSignalType := 2, ecPrevLagIndex := 1000 }, prevDecodeOnlyMiddle := 1 }
              [0x4c, 0x9a, 0x3b, 0x71, 0x05, 0xe0, 0x2f]) with
            | .ok (some [.silk 1 o]) => decide (o.evs.length ≥ 7) | _ => false) = true := by decide +kernel
+
+/-! ## Stage 2: the CELT frame header (OpusModel/CeltSyms.lean) -/
+
+open Opus.CeltSyms Opus.CeltSymsProofs in
+/-- Totality and field ranges of the CELT header symbol layer.  `J c` is the stand-alone range-decoder invariant
+    (`val < 2^32`, `2^23 < rng ≤ 2^31`).  From any such decoder state, for every band range, channel count, `LM ≤ 3`
+    and frame length, `celtHeader` decodes — none of laplace.c's `celt_assert`s can fire — and (`HdrOk`):
+    silence / transient / intra / tf_select are bits; post-filter octave ≤ 5, hence period in `[15, 1022]`, gain
+    index ≤ 7, tapset ≤ 2; one coarse-energy symbol per band and channel, each either a budget fallback value
+    (−1, 0, 1) or a value `ec_laplace_encode` represents without clamping for the parameters of its band model
+    (C17's `laplace_decode_encode`); one `tf_res` per band in `[-3, 3]` (inside `tf_select_table`); spread ≤ 3;
+    one dynalloc boost per band, `0` or below `cap + quanta`; trim ≤ 10; and the decoder state handed to
+    `clt_compute_allocation` satisfies `J` again. -/
+theorem celtHdr_total_in_range (cfg : CeltCfg) (hLM : cfg.LM < 4) (len : Nat) (c : Dec) (hj : J c) :
+    ∃ h, celtHeader cfg len c = .ok h ∧ HdrOk cfg h :=
+  celtHeader_ok cfg hLM len c hj
+
+open Opus.CeltSyms Opus.CeltSymsProofs in
+/-- … in particular for a CELT-only frame and for a redundancy frame of *arbitrary bytes*: `ec_dec_init` establishes
+    `J` whatever the bytes are. -/
+theorem celtHdr_total_arbitrary_bytes (bandwidth nCh spf48 : Nat) (frame : Bytes) :
+    (∃ h, celtOnlyHeader bandwidth nCh spf48 frame = .ok h ∧
+      HdrOk { start := 0, end_ := endBandOf bandwidth, C := nCh, LM := lmOf spf48 } h) ∧
+    (∃ h, CeltSyms.redundancyHeader bandwidth nCh frame = .ok h ∧
+      HdrOk { start := 0, end_ := endBandOf bandwidth, C := nCh, LM := 1 } h) := by
+  constructor
+  · unfold celtOnlyHeader
+    exact celtHeader_ok _ (by unfold lmOf; dsimp only; split <;> (try split) <;> (try split) <;> omega) _ _
+      (J_decInit frame frame.length)
+  · unfold CeltSyms.redundancyHeader
+    exact celtHeader_ok _ (by dsimp only; omega) _ _ (J_decInit frame frame.length)
+
+/-- non-vacuity: a concrete 20 ms stereo full-band CELT frame of arbitrary bytes decodes to a header with a
+    post-filter, 42 coarse-energy symbols and a long call trace -/
+example : (match CeltSyms.celtOnlyHeader 1105 2 960
+             [0x5a, 0xc3, 0x17, 0x88, 0x3e, 0xf1, 0x02, 0x9b, 0x64, 0xd5, 0x2c, 0x71, 0xae, 0x0f, 0x93, 0x48,
+              0x5a, 0xc3, 0x17, 0x88, 0x3e, 0xf1, 0x02, 0x9b, 0x64, 0xd5, 0x2c, 0x71, 0xae, 0x0f, 0x93, 0x48] with
+           | .ok h => decide (h.coarse.length = 42 ∧ h.trace.length ≥ 60) | _ => false) = true := by decide +kernel
+
+/-- The frozen tables of the CELT header model (energy probability model, small-energy / trim / spread / tapset ICDFs,
+    `tf_select_table`, band edges, allocation caps) equal the tables regenerated from `/repo` on this run. -/
+theorem celtHdr_tables_frozen_eq_repo : Opus.CeltSymsProofs.celtFrozenEq = true := Opus.CeltSymsProofs.celtFrozenEq_true
 
 end OpusProps.C03
